@@ -822,8 +822,21 @@ class MacroProgram(ElementProgram):
                 name.lower() in self.implicit_i18n_attributes
             )
 
-            char_escape = ('&', '<', '>', quote)
             msgid = I18N_ATTRIBUTES.get(name, missing)
+
+            # A value that is computed (by tal:attributes, ${...} or a
+            # translation) cannot stand without quotes the way the
+            # static text may: it can contain white space, quotes or
+            # markup characters.
+            if name is not None and not quote and (
+                expr is not None or
+                (text is not None and '${' in text) or
+                msgid is not missing or
+                implicit_i18n
+            ):
+                quote = '"'
+
+            char_escape = ('&', '<', '>', quote)
 
             # If (by heuristic) ``text`` contains one or more
             # interpolation expressions, apply interpolation
